@@ -660,31 +660,39 @@ def run(ctx):
   alias1 = te.alias_specs(1)                          # [A, A] with A an ndarray
   alias2 = te.alias_specs(2)                          # every aliased depth<=2
   alias_sh = te.alias_specs(2, leaf_kinds=('int',))   # container aliases only
-  alias_spine = te.alias_specs(3, max_children=(2, 1, 1))
-  alias_wide = te.alias_specs(2, max_children=(3, 2), leaf_kinds=('int',))
+  in2 = set(alias2)
+  alias_spine = [s for s in te.alias_specs(3, max_children=(2, 1, 1))
+                 if s not in in2]                     # depth 3 exactly
+  alias_wide = [s for s in te.alias_specs(2, max_children=(3, 2),
+                                          leaf_kinds=('int',))
+                if s not in in2]                      # root has 3 children
   alias_rot = ([te.rotated(s, i % 3) for i, s in enumerate(alias_sh)]
                if quick else
                sorted({te.rotated(s, o) for s in alias_sh for o in range(3)},
                       key=repr))
   alias_look = sorted({te.with_lookalike_keys(s) for s in alias_sh + alias1
                        if te.has_dict(s)}, key=repr)
-  alias_deep_sh = [] if quick else te.alias_specs(
-      3, max_children=(2, 1, 1), leaf_kinds=('int',))
+  alias_deep_sh = [] if quick else [
+      s for s in te.alias_specs(3, max_children=(2, 1, 1), leaf_kinds=('int',))
+      if s not in in2]
+  small = set(alias_sh + alias1)      # these get the larger menus below
   plan += [
-      ('single', alias2,
+      ('single', [s for s in alias2 if s not in small],
        {'values': VALUES_SPINE if quick else VALUES_FULL,
         'multi': 0 if quick else 2}),
       ('single', alias_sh + alias1 + alias_look,
        {'values': VALUES_FULL, 'multi': 2 if quick else 3}),
       ('single', alias_spine + alias_wide,
        {'values': VALUES_SPINE, 'multi': 0, 'one_key': not quick}),
-      ('chain', alias_rot + alias1 + alias_look + [
-          te.rotated(s, i % 3) for i, s in enumerate(alias_deep_sh)],
+      ('chain', alias_rot + alias1 + alias_look,
        {'length': 2, 'values': VALUES_CHAIN,
         'forms': two_forms if quick else all_forms}),
   ]
-  n_alias_single = len(alias2) + len(alias_sh + alias1 + alias_look) + len(
-      alias_spine + alias_wide)
+  if alias_deep_sh:
+    plan.append(('chain', [te.rotated(s, i % 3)
+                           for i, s in enumerate(alias_deep_sh)],
+                 {'length': 2, 'values': VALUES_CHAIN, 'forms': two_forms}))
+  n_alias_single = len(alias2) + len(alias_look) + len(alias_spine + alias_wide)
   if quick:
     plan.append(('chain', [EMPTY] + d1 + alias1, {
         'length': 2, 'values': VALUES_CHAIN,
@@ -724,15 +732,16 @@ def run(ctx):
       'which one or more children are replaced, in every possible way, by a '
       'reference to a container or ndarray object completed earlier in '
       'depth-first order, value depth still <= 2 (%d trees: shared siblings, '
-      '1-3 aliases), the same for the depth-3 two-chain trees (%d: shared '
-      'cousins / uncle) and for int-leaved depth-2 trees whose root has <= 3 '
-      'children (%d: up to 3 occurrences of one object); on all of these every '
-      'single set in every spelling and update form, set-to-current, every '
-      'read, keys/values/items/len and apply (values %s; one-key tuple '
-      'conventions%s; multi-key reads on the %d aliased trees with int leaves '
-      'or depth 1 incl. reserved-lookalike keys%s); every sequence of 2 sets '
-      '(%s) on the %d aliased depth<=2 shapes with leaf kinds assigned '
-      'cyclically (%s), depth 1 and lookalike keys%s. Cases are '
+      '1-3 aliases), the same for the depth-3 two-chain trees (%d of depth 3: '
+      'shared cousins / uncle) and for int-leaved depth-2 trees whose root has '
+      '3 children (%d: up to 3 occurrences of one object); on all of these '
+      'every single set in every spelling and update form, set-to-current, '
+      'every read, keys/values/items/len and apply (values %s; one-key tuple '
+      'conventions%s; all six values and multi-key reads on the %d aliased '
+      'trees with int leaves only or of depth 1 and their variants with '
+      'reserved-lookalike keys%s); every sequence of 2 sets (%s) on %d aliased '
+      'trees: the int-leaved depth<=2 ones with leaf kinds assigned cyclically '
+      '(%s), depth 1, lookalike keys%s. Cases are '
       'distinct by construction; non-trivial = at least one leaf or one set.'
       % (len(d2), len(spine3),
          '' if quick else '; single sets, reads, iteration and apply also on '
@@ -758,8 +767,8 @@ def run(ctx):
          if quick else 'all four forms',
          len(alias_rot + alias1 + alias_look),
          'one starting offset per shape' if quick else 'all three offsets',
-         '' if quick else ' and on the %d int-shaped aliased depth-3 two-chain '
-         'trees' % len(alias_deep_sh)))
+         '' if quick else ', and as chained / multi-key copy_and_set on the %d '
+         'aliased two-chain shapes of depth 3' % len(alias_deep_sh)))
   ctx.assumptions += [
       'root of the viewed data is a dict/list/tuple or the empty view '
       '(statement: "any nested mapping/sequence"); a bare scalar/ndarray root '
